@@ -5,8 +5,11 @@ import (
 	"runtime/debug"
 	"strings"
 	"testing"
+	"time"
 
 	"github.com/grafana/carbon-relay-ng/imperatives"
+	"github.com/grafana/carbon-relay-ng/validate"
+	m20 "github.com/metrics20/go-metrics20/carbon20"
 	"pgregory.net/rapid"
 
 	"verifharness/internal/ev"
@@ -23,20 +26,26 @@ import (
 func TestPropFilterValues(t *testing.T) {
 	rec := ev.Get("filter_values")
 	rapid.Check(t, func(t *rapid.T) {
-		tab := h.NewTable(false)
+		// validation level none: every name reaches the filters (what a relay configured that way does)
+		tab := h.NewTableLevels(validate.LevelLegacy{Level: m20.NoneLegacy}, validate.LevelM20{Level: m20.NoneM20}, false)
 		defer func() {
 			tab.Shutdown()
 			for tab.DelAggregator(0) == nil {
 			}
 		}()
 		soups := 0
+		var used []string // values that may have become regexes of accepted filters: matching names are derived from them
 		val := func(label string) string {
 			switch rapid.IntRange(0, 5).Draw(t, label+".kind") {
 			case 0, 1, 2:
 				soups++
-				return gen.RegexSoup(t, label)
+				v := gen.RegexSoup(t, label)
+				used = append(used, v)
+				return v
 			case 3:
-				return gen.Regex(t, label)
+				v := gen.Regex(t, label)
+				used = append(used, v)
+				return v
 			case 4:
 				return gen.Frag(t, label)
 			default:
@@ -80,7 +89,8 @@ func TestPropFilterValues(t *testing.T) {
 				if o := fopts("aggf"); o != "" {
 					cmd += " " + o
 				}
-				cmd += " agg.$1 10 20" + rapid.SampledFrom([]string{"", " cache=true", " cache=false", " dropRaw=true"}).Draw(t, "aggopt")
+				cmd += " " + rapid.SampledFrom([]string{"agg.$1", "agg.$1", "$1", "${1}x.$2", "agg.$2.$1", "agg.$9", "agg.$name", "agg.$$1", "agg", "$0"}).Draw(t, "aggfmt") + " " +
+					rapid.SampledFrom([]string{"10 20", "1 1", "60 5"}).Draw(t, "aggtiming") + rapid.SampledFrom([]string{"", " cache=true", " cache=false", " dropRaw=true"}).Draw(t, "aggopt")
 			case k == 3 || len(routes) == 0:
 				key := fmt.Sprintf("rk%d", len(routes))
 				cmd = "addRoute " + rapid.SampledFrom([]string{"sendAllMatch", "sendFirstMatch"}).Draw(t, "rtype") + " " + key
@@ -103,7 +113,17 @@ func TestPropFilterValues(t *testing.T) {
 		}
 		nl := rapid.IntRange(2, 6).Draw(t, "nlines")
 		for i := 0; i < nl; i++ {
-			line := gen.Name(t, "name") + " 1 1500000000"
+			name := gen.Name(t, "name")
+			if len(used) > 0 && rapid.Bool().Draw(t, "matching") {
+				// a name that (very likely) matches one of the patterns in play: optional groups are left out or
+				// filled at random, so capture groups that exist but did not take part in the match occur
+				name = gen.CleanName(gen.SampleMatch(t, rapid.SampledFrom(used).Draw(t, "from")))
+			}
+			ts := int64(1500000000)
+			if rapid.Bool().Draw(t, "now") {
+				ts = time.Now().Unix() // (aggregations only look at points inside their window)
+			}
+			line := fmt.Sprintf("%s 1 %d", name, ts)
 			run(fmt.Sprintf("dispatching %q", line), func() error { tab.Dispatch([]byte(line)); return nil })
 		}
 		rec.Case(strings.Join(cmds, " ; "), soups > 0 && accepted > nl && refused > 0, fmt.Sprintf("accepted-cmds>0=%v", accepted > nl), fmt.Sprintf("refused>0=%v", refused > 0))
